@@ -27,7 +27,7 @@ var c17Keys = map[string][]byte{
 	"B": bytes.Repeat([]byte{0xB2}, 16),
 	"C": bytes.Repeat([]byte{0xC3}, 24),
 	"D": bytes.Repeat([]byte{0xD4}, 32),
-	"e": {},                              // invalid: empty
+	"e": {},                             // invalid: empty
 	"f": bytes.Repeat([]byte{0xF5}, 15), // invalid
 	"g": bytes.Repeat([]byte{0x66}, 33), // invalid
 }
@@ -281,6 +281,9 @@ func kopsStr(ops []kop) []string {
 func TestC17(t *testing.T) {
 	rep := newReport()
 	defer rep.Write(t)
+	if replayT(t, rep, c17TScenarios()) {
+		return
+	}
 	var rp c17Replay
 	if loadReplay(&rp) {
 		_, i, sig, msg := c17Run(rp.Start, rp.Ops)
@@ -410,6 +413,7 @@ func TestC17(t *testing.T) {
 	rep.Traces = seqs
 	rep.Extra["sequences"] = seqs
 
+	runTSet(t, rep, c17TScenarios(), 2, 9000)
 	// ---- rotation
 	c17Rotation(t, rep)
 	rep.Distinct = rep.States
